@@ -38,7 +38,8 @@ class Harness:
         self.ww = w.bit_length() - 1
         self.shift = w.bit_length()  # dbit - w
         self.cellbits = 4 if ns == 'hex' else 1
-        self.variables = list(variables)
+        self.variables = [(v[0], v[1]) for v in variables]
+        self.var_bits = {v[0]: (v[2] if len(v) > 2 else self.cellbits) for v in variables}
         self.blocks = {b.name: b for b in blocks}
         lines = []
         if init == 'all':
@@ -142,21 +143,26 @@ class Harness:
     # ---- variables
     def poke(self, name, value):
         base = self.var_addr[name]
-        mask = (1 << self.cellbits) - 1
+        cb = self.var_bits[name]
+        mask = (1 << cb) - 1
         for i in range(self.var_cells[name]):
-            self.mem.set_word(base + 2 * i + 1, ((value >> (self.cellbits * i)) & mask) << self.shift)
+            self.mem.set_word(base + 2 * i + 1, ((value >> (cb * i)) & mask) << self.shift)
+
+    def poke_word(self, wa, value):
+        self.mem.set_word(wa, value)
 
     def peek(self, snap, name):
         """-> (value, clean) - clean: every non-data bit of the variable's words equals the baseline"""
         base = self.var_addr[name]
-        mask = (1 << self.cellbits) - 1
+        cb = self.var_bits[name]
+        mask = (1 << cb) - 1
         v = 0
         clean = True
         for i in range(self.var_cells[name]):
             off = (base + 2 * i) * 8
             fw = int.from_bytes(snap[off:off + 8], 'little')
             jw = int.from_bytes(snap[off + 8:off + 16], 'little')
-            v |= ((jw >> self.shift) & mask) << (self.cellbits * i)
+            v |= ((jw >> self.shift) & mask) << (cb * i)
             if fw != 0 or jw & ~(mask << self.shift):
                 clean = False
         return v, clean
@@ -201,16 +207,22 @@ class Harness:
         return snap[lo * 8:hi * 8]
 
     # ---- one transition
-    def step(self, block, vals, io_in=None):
+    def step(self, block, vals, io_in=None, raw=None, timeout=5.0):
         """vals: dict var->int (all declared variables). returns dict(exit, vals, frame_ok, diffs, cause, out, in_left)"""
         for name, _ in self.variables:
             self.poke(name, vals[name])
+        if raw:
+            cur = bytearray(self.current)
+            for wa, val in raw.items():
+                self.mem.set_word(wa, val)
+                cur[wa * 8:wa * 8 + 8] = int(val).to_bytes(8, 'little')
+            self.current = bytes(cur)
         self.io_out = []
         self.io_in = list(io_in or [])
         self.transitions += 1
         res = {'exit': None, 'vals': None, 'frame': [], 'cause': None, 'out': None}
         try:
-            cause, ops, err, last, _ = self._run(self.labels[f'blk_{block}'])
+            cause, ops, err, last, _ = self._run(self.labels[f'blk_{block}'], timeout)
         except Watchdog:
             res['cause'] = 'watchdog'
             return res
@@ -237,18 +249,21 @@ class Harness:
         res['vals'] = got
         return res
 
-    def frame_diffs(self, block, snap, expected_vals, extra_allowed=()):
+    def frame_diffs(self, block, snap, expected_vals, extra_allowed=(), raw_expected=None):
         """words (outside the variables' data, the block's own region and words 0..3) that differ from the
         last accepted image. expected_vals are patched into the comparison image. On success the snapshot
         becomes the accepted image."""
         exp = bytearray(self.current)
-        mask = (1 << self.cellbits) - 1
         for name, _ in self.variables:
             base = self.var_addr[name]
+            cb = self.var_bits[name]
+            mask = (1 << cb) - 1
             v = expected_vals[name]
             for i in range(self.var_cells[name]):
                 off = (base + 2 * i + 1) * 8
-                exp[off:off + 8] = (((v >> (self.cellbits * i)) & mask) << self.shift).to_bytes(8, 'little')
+                exp[off:off + 8] = (((v >> (cb * i)) & mask) << self.shift).to_bytes(8, 'little')
+        for wa, val in (raw_expected or {}).items():
+            exp[wa * 8:wa * 8 + 8] = int(val).to_bytes(8, 'little')
         lo, hi = self.region[block]
         if snap[32:lo * 8] == exp[32:lo * 8] and snap[hi * 8:] == exp[hi * 8:]:
             self.current = snap
